@@ -596,6 +596,36 @@ Definition subset_json (s : text) (a : axis) (ids_ : list text) : result text :=
   rbind (direct_parse_key s (match a with Obs => K_COLUMNS | Samp => K_ROWS end)) (fun other_kv =>
     ROk (join [NL] ([[LBRACE]] ++ hdr ++ [new_data; [COMMA]; snd im; [COMMA]; other_kv; [RBRACE]])))))).
 
+(* ------------------------------------------------------------------ the command `biom subset-table` (table_subsetter.py:62-82) *)
+(* iterating over the ids file: the pieces ending at a newline (a final piece without one counts
+   too, an empty final piece does not) *)
+Definition split_lines (s : text) : list text :=
+  match rev (split_char NL s) with
+  | [] :: r => rev r
+  | _ => split_char NL s
+  end.
+(* 66-70: lines starting with '#' are skipped; line.strip().split('\t')[0] *)
+Definition read_ids_file (s : text) : list text :=
+  flat_map (fun line => match line with
+                        | 35 :: _ => []
+                        | _ => [hd [] (split_char TAB (strip is_space line))]
+                        end) (split_lines s).
+(* JSON input: every piece the generator yields is written followed by a newline (75-78) *)
+Definition cli_subset_json (s : text) (a : axis) (ids_file : text) : result text :=
+  rbind (subset_json s a (read_ids_file ids_file)) (fun out => ROk (out ++ [NL])).
+
+(* an ids file as users write it: one id per line, optionally followed by tab-separated columns *)
+Definition ids_line := (text * option text)%type.
+Definition print_ids_line (l : ids_line) : text :=
+  match snd l with None => fst l ++ [NL] | Some extra => fst l ++ TAB :: extra ++ [NL] end.
+Definition print_ids_file (ls : list ids_line) : text := flat_map print_ids_line ls.
+(* ids the file format can carry: not empty, no blank at either end, no tab, no newline, no leading '#' *)
+Definition id_ok (i : text) : Prop :=
+  i <> [] /\ is_space (hd 0 i) = false /\ is_space (last i 0) = false /\ ~ In TAB i /\ ~ In NL i /\ hd 0 i <> 35.
+Definition extra_ok (e : text) : Prop := e <> [] /\ is_space (last e 0) = false /\ ~ In NL e.
+Definition ids_line_ok (l : ids_line) : Prop :=
+  id_ok (fst l) /\ match snd l with None => True | Some e => extra_ok e end.
+
 (* ================================================================== reference printers / parsers *)
 (* A sparse entry: row, column, value token (the number text exactly as the file holds it). *)
 Definition triple := (nat * nat * text)%type.
